@@ -48,9 +48,12 @@ class DetectVarNames( ast.NodeVisitor ):
       # Shunning: since the closure/global variables can vary across
       # different instances of the same class, we need to cache the name.
 
-      low = up = None
+      # "?": not known statically; None: an omitted bound, the end of the signal
+      low = up = "?"
 
-      if isinstance( lower, ast.Num ):
+      if lower is None:
+        low = None
+      elif isinstance( lower, ast.Num ):
         low = node.slice.lower.n
       elif isinstance( lower, ast.Name ):
         x = lower.id
@@ -58,7 +61,9 @@ class DetectVarNames( ast.NodeVisitor ):
         elif x in self.closure: low = (True, x)
         elif x in self.globals: low = (False, x)
 
-      if isinstance( upper, ast.Num ):
+      if upper is None:
+        up = None
+      elif isinstance( upper, ast.Num ):
         up = node.slice.upper.n
       elif isinstance( upper, ast.Name ):
         x = upper.id
@@ -66,7 +71,7 @@ class DetectVarNames( ast.NodeVisitor ):
         elif x in self.closure: up = (True, x)
         elif x in self.globals: up = (False, x)
 
-      if low is not None and up is not None:
+      if low != "?" and up != "?":
         slices.append( slice(low, up) )
       else:
         # bounds that are not known statically: any part of the signal
@@ -153,9 +158,12 @@ class DetectVarNames( ast.NodeVisitor ):
       # Shunning: since the closure/global variables can vary across
       # different instances of the same class, we need to cache the name.
 
-      low = up = None
+      # "?": not known statically; None: an omitted bound, the end of the signal
+      low = up = "?"
 
-      if isinstance( lower, ast.Num ):
+      if lower is None:
+        low = None
+      elif isinstance( lower, ast.Num ):
         low = node.slice.lower.n
       elif isinstance( lower, ast.Name ):
         x = lower.id
@@ -163,7 +171,9 @@ class DetectVarNames( ast.NodeVisitor ):
         elif x in self.closure: low = (True, x)
         elif x in self.globals: low = (False, x)
 
-      if isinstance( upper, ast.Num ):
+      if upper is None:
+        up = None
+      elif isinstance( upper, ast.Num ):
         up = node.slice.upper.n
       elif isinstance( upper, ast.Name ):
         x = upper.id
@@ -171,7 +181,7 @@ class DetectVarNames( ast.NodeVisitor ):
         elif x in self.closure: up = (True, x)
         elif x in self.globals: up = (False, x)
 
-      if low is not None and up is not None:
+      if low != "?" and up != "?":
         slices.append( slice(low, up) )
       else:
         # bounds that are not known statically: any part of the signal
